@@ -756,17 +756,10 @@ impl NetGen {
 }
 
 // ------------------------------------------------------------------------------------------ oracles
-/// The statement of C15 (and the no-one-stuck part of C14) evaluated on one real history, with no model:
-/// (1) a deadlock panic of actor a on its ask to b is justified only if a = b or, at that moment, a chain of
-///     unanswered in-flight asks leads from b to a;  (2) in a program whose hooks only ask higher-numbered
-///     peers no deadlock panic is ever justified;  (3) whenever no ask is in flight the wait-for map is empty.
-pub fn history_oracles(trace: &[String], acyclic: bool) -> Vec<String> {
+/// C02 on one real history, with no model: a tell (from a hook to its own actor, or from a client) that returned Ok
+/// before another send to the same actor began is handled before it
+pub fn order_oracles(trace: &[String]) -> Vec<String> {
     let mut out = vec![];
-    // in-flight, unanswered: (caller, callee, mid)
-    let mut open: Vec<(usize, usize, u64)> = vec![];
-    // started and not yet returned to the caller (answered or not)
-    let mut pending: Vec<(usize, u64)> = vec![];
-    let mut last_ask: std::collections::BTreeMap<usize, (usize, u64, Vec<(usize, usize, u64)>)> = Default::default();
     let num = |s: &str| s.parse::<u64>().unwrap_or(0);
     // tells (self-tells from hooks, client tells) that returned Ok: (target, mid, position of the Ok)
     let mut told: Vec<(usize, u64, usize)> = vec![];
@@ -831,6 +824,22 @@ pub fn history_oracles(trace: &[String], acyclic: bool) -> Vec<String> {
             }
         }
     }
+    out
+}
+
+/// The statement of C15 (and the no-one-stuck part of C14) evaluated on one real history, with no model:
+/// (1) a deadlock panic of actor a on its ask to b is justified only if a = b or, at that moment, a chain of
+///     unanswered in-flight asks leads from b to a;  (2) in a program whose hooks only ask higher-numbered
+///     peers no deadlock panic is ever justified;  (3) whenever no ask is in flight the wait-for map is empty.
+pub fn history_oracles(trace: &[String], acyclic: bool) -> Vec<String> {
+    let mut out = vec![];
+    // in-flight, unanswered: (caller, callee, mid)
+    let mut open: Vec<(usize, usize, u64)> = vec![];
+    // started and not yet returned to the caller (answered or not)
+    let mut pending: Vec<(usize, u64)> = vec![];
+    let mut last_ask: std::collections::BTreeMap<usize, (usize, u64, Vec<(usize, usize, u64)>)> = Default::default();
+    let num = |s: &str| s.parse::<u64>().unwrap_or(0);
+    out.extend(order_oracles(trace));
     for l in trace {
         let ws: Vec<&str> = l.split_whitespace().collect();
         match ws.as_slice() {
